@@ -9,7 +9,7 @@ import os, re, sys, glob
 VERIF = os.path.dirname(os.path.dirname(os.path.abspath(__file__)))
 sys.path.insert(0, os.path.join(VERIF, 'tools'))
 import rsx
-from msgparse_table import BOUNDS, INVARIANTS, HELPERS
+from msgparse_table import BOUNDS, INVARIANTS, HELPERS, NO_LINEAR, HELPER_COUNT
 REPO = os.environ.get('VERIF_REPO', '/repo')
 
 
@@ -19,6 +19,90 @@ def field_types(repo):
         s = rsx.Source.get(f)
         for m in re.finditer(r'impl\s+SwiftField\s+for\s+([A-Za-z0-9_]+)', s.masked):
             res.add(m.group(1))
+    return res
+
+
+def block_end(masked, pos):
+    """end (index of the closing brace) of the innermost block that contains pos"""
+    depth = 0
+    for i in range(pos, len(masked)):
+        ch = masked[i]
+        if ch == '{':
+            depth += 1
+        elif ch == '}':
+            if depth == 0:
+                return i
+            depth -= 1
+    return len(masked)
+
+
+def stmt_end(masked, pos):
+    """index of the `;` that ends the statement starting at pos (depth 0)"""
+    depth = 0
+    for i in range(pos, len(masked)):
+        ch = masked[i]
+        if ch in '([{':
+            depth += 1
+        elif ch in ')]}':
+            depth -= 1
+            if depth < 0:
+                return i
+        elif ch == ';' and depth == 0:
+            return i
+    return len(masked)
+
+
+def parsed_locals(body_nc):
+    """locals that hold field occurrences taken from the parser: [(name, let position, scope end, dead-from position)].
+    A local counts when it is bound or assigned from an expression that calls the parser (parser.parse_*, a helper taking
+    &mut parser), when values are pushed onto it, or when it is built from such locals (which are then dead: moved)."""
+    m = rsx.mask(body_nc)
+    PARSE = re.compile(r'parser\s*\.\s*parse_|Self::parse_[a-z0-9_]*\s*\(\s*&mut\s+parser')
+    names = set()
+    # assignments / lets whose right-hand side calls the parser
+    for mm in re.finditer(r'(?<![A-Za-z0-9_.])(?:let\s+(?:mut\s+)?)?([a-z_][a-z0-9_]*)\s*(?::[^=;]*)?=(?!=)', m):
+        e = stmt_end(m, mm.end())
+        if PARSE.search(m[mm.end():e]):
+            names.add(mm.group(1))
+    tuple_lets = []
+    for mm in re.finditer(r'(?<![A-Za-z0-9_])let\s*\(([a-z0-9_,\s]*)\)\s*=(?!=)', m):
+        e = stmt_end(m, mm.end())
+        if PARSE.search(m[mm.end():e]):
+            for n in [x.strip() for x in mm.group(1).split(',') if x.strip()]:
+                names.add(n)
+                tuple_lets.append((n, mm.start()))
+    for mm in re.finditer(r'(?<![A-Za-z0-9_.])([a-z_][a-z0-9_]*)\s*\.\s*push\s*\(', m):
+        names.add(mm.group(1))
+    dead = {}
+    changed = True
+    while changed:
+        changed = False
+        for mm in re.finditer(r'(?<![A-Za-z0-9_])let\s+(?:mut\s+)?([a-z_][a-z0-9_]*)\s*(?::[^=;]*)?=(?!=)', m):
+            e = stmt_end(m, mm.end())
+            rhs = m[mm.end():e]
+            # a bare mention (not a method call on it, not a borrow) moves the value into the new binding
+            moved = []
+            for n in names:
+                if n == mm.group(1):
+                    continue
+                hit = None
+                for h in re.finditer(r'(?<![A-Za-z0-9_.&])%s(?![A-Za-z0-9_(])(?!\s*\.)' % re.escape(n), rhs):
+                    hit = h      # the last bare mention is where the value leaves
+                if hit:
+                    moved.append((n, mm.end() + hit.start()))
+            if moved and mm.group(1) not in names:
+                names.add(mm.group(1)); changed = True
+            for n, at in moved:
+                if n not in dead or dead[n] > at:
+                    dead[n] = at
+    res = []
+    for mm in re.finditer(r'(?<![A-Za-z0-9_])let\s+(?:mut\s+)?([a-z_][a-z0-9_]*)\s*(?::[^=;]*)?(?==|;)', m):
+        if mm.group(1) in names:
+            # live from the end of the binding statement (a loop inside the initialiser does not see the name yet)
+            res.append((mm.group(1), stmt_end(m, mm.end()), block_end(m, mm.start()), dead.get(mm.group(1), len(m))))
+    for n, pos in tuple_lets:
+        res.append((n, stmt_end(m, pos + 4), block_end(m, pos), dead.get(n, len(m))))
+    res.sort(key=lambda x: x[1])
     return res
 
 
@@ -47,7 +131,7 @@ def gen(t):
     w('// GENERATED by tools/gen_msgparse.py')
     w('//@include inc/mparser_api.vu')
     w('//@types %s %s' % (f, T))
-    w('//@fieldimpls')
+    w('//@fieldimpls' + ('' if t in NO_LINEAR else ' nf'))
     w('')
     for h in HELPERS.get(t, []):
         w('//@fn %s %s in "impl %s" impl=%s sigrep="crate::errors::ParseError=>ParseError" props=C01,C07' % (f, h, T, T))
@@ -55,6 +139,8 @@ def gen(t):
         w('  old(parser).wf()')
         w('ensures')
         w('  [C01 mt%s.%s.frame] final(parser).wf() && final(parser).same(old(parser)) && final(parser).position >= old(parser).position && (final(parser).position == old(parser).position ==> complete(final(parser)) == complete(old(parser)))' % (t, h))
+        if t not in NO_LINEAR and h in HELPER_COUNT.get(t, {}):
+            w('  [C01 mt%s.%s.linear] (match r { Ok(v) => final(parser).consumed@ == old(parser).consumed@ + %s, Err(_) => true })' % (t, h, HELPER_COUNT[t][h]))
         w('body replace "crate::parser::MessageParser" => "MessageParser"')
         w('//@end')
     w('//@fn %s parse_from_block4 in "%s" impl=%s props=C01,C09,C07' % (f, scope, T))
@@ -63,22 +149,99 @@ def gen(t):
     for cid, expr in BOUNDS.get(t, []):
         w('  [C01,C09 mt%s.parse.%s] (match r { Ok(m) => %s, Err(_) => true })' % (t, cid, expr))
     loops = rsx.loops_in(body_nc)
+    plocals = parsed_locals(body_nc)
     mb = rsx.mask(body_nc)
     spans = [(ob, rsx.match_close(mb, ob)) for (_, _, ob) in loops]
+    # names shadowed inside a loop body: the outer value is snapshotted (ghost) before the loop, for the running totals
+    shadow_before = {}      # loop ordinal -> [ghost lets]
+    push_hints = []
+    if t not in NO_LINEAR:
+        seen_anchor = {}
+        for pm in re.finditer(r'(?<![A-Za-z0-9_.])([a-z_][a-z0-9_]*)\s*\.\s*push\s*\(\s*([A-Z][A-Za-z0-9]*)\s*\{', mb):
+            at = pm.start()
+            live = [(n, lp) for (n, lp, le, dd) in plocals if lp < at < le and at < dd]
+            terms = []
+            for i_, (n, lp) in enumerate(live):
+                if any(n2 == n for (n2, _) in live[i_ + 1:]):
+                    # shadowed by a later binding: refer to the snapshot taken before the innermost enclosing loop that follows the outer binding
+                    encl = [k2 for k2 in range(nloops) if spans[k2][0] < at < spans[k2][1] and lp < loops[k2][0]]
+                    if encl:
+                        k2 = max(encl, key=lambda q: spans[q][0])
+                        g = 'g_outer_%s' % n
+                        shadow_before.setdefault(k2, [])
+                        if g not in [x[0] for x in shadow_before[k2]]:
+                            shadow_before[k2].append((g, n))
+                        terms.append(g)
+                        continue
+                terms.append('%s.nf()' % n)
+            anchor = body_nc[pm.start():pm.end()].strip()
+            seen_anchor[anchor] = seen_anchor.get(anchor, 0) + 1
+            push_hints.append(('hint before "%s"%s' % (anchor, '' if seen_anchor[anchor] == 1 else ' #%d' % seen_anchor[anchor]),
+                               '  proof { assert(parser.consumed@ == %s); }' % (' + '.join(terms) if terms else '0')))
+    if t not in NO_LINEAR:
+        # before a binding that is built from several parsed locals (a sequence struct made of optional members): the
+        # running total once more
+        for dm in re.finditer(r'(?<![A-Za-z0-9_])let\s+(?:mut\s+)?([a-z_][a-z0-9_]*)\s*(?::[^=;]*)?=(?!=)', mb):
+            e = stmt_end(mb, dm.end())
+            rhs = mb[dm.end():e]
+            if re.search(r'parser\s*\.\s*parse_', rhs) or not re.search(r'[A-Z][A-Za-z0-9]*\s*\{', rhs):
+                continue
+            at = dm.start()
+            live = [n for (n, lp, le, dd) in plocals if lp < at < le and at < dd]
+            if len(live) != len(set(live)) or not any(re.search(r'(?<![A-Za-z0-9_.])%s(?![A-Za-z0-9_])' % re.escape(n), rhs) for n in live):
+                continue
+            push_hints.append(('hint before "%s"' % body_nc[dm.start():dm.end()].strip(), '  proof { assert(parser.consumed@ == %s); }' % (' + '.join('%s.nf()' % n for n in live) if live else '0')))
+            after = e + 1
+            live2 = [n for (n, lp, le, dd) in plocals if lp < after < le and after < dd]
+            if len(live2) == len(set(live2)):
+                push_hints.append(('hint after "%s"' % body_nc[dm.start():dm.end()].strip(), '  proof { assert(parser.consumed@ == %s); }' % (' + '.join('%s.nf()' % n for n in live2) if live2 else '0')))
+    if t not in NO_LINEAR:
+        # checkpoints: the running total restated before every fourth parser call (keeps each arithmetic step small)
+        cnt = {}
+        nth = 0
+        for dm in re.finditer(r'(?<![A-Za-z0-9_])let\s+(?:mut\s+)?([a-z_][a-z0-9_]*)\s*(?::[^=;]*)?=(?!=)', mb):
+            anchor = re.sub(r'\s+', ' ', body_nc[dm.start():dm.end()].strip())
+            cnt[anchor] = cnt.get(anchor, 0) + 1
+            e = stmt_end(mb, dm.end())
+            if not re.match(r'\s*parser\s*\.\s*parse_', mb[dm.end():e]):
+                continue
+            nth += 1
+            if nth % 4 != 0:
+                continue
+            at = dm.start()
+            live = [n for (n, lp, le, dd) in plocals if lp < at < le and at < dd]
+            if len(live) != len(set(live)) or body_nc[dm.start():dm.end()].strip() != anchor:
+                continue
+            push_hints.append(('hint before "%s"%s' % (anchor, '' if cnt[anchor] == 1 else ' #%d' % cnt[anchor]), '  proof { assert(parser.consumed@ == %s); }' % (' + '.join('%s.nf()' % n for n in live) if live else '0')))
     for k in range(nloops):
         parents = [j for j in range(nloops) if j != k and spans[j][0] < spans[k][0] and spans[k][1] < spans[j][1]]
         has_inner = any(spans[k][0] < spans[j][0] and spans[j][1] < spans[k][1] for j in range(nloops) if j != k)
         w('loop %d' % k)
-        w('  invariant parser.wf(), parser.input == block4, parser.message_type@ == "%s"@' % t + (', parser.position >= p_before_%d' % k if parents else '') + ''.join(', ' + x for x in INVARIANTS.get(t, {}).get(k, [])))
+        kwpos = loops[k][0]
+        live = [n for (n, lp, le, dd) in plocals if lp < kwpos < le and kwpos < dd]
+        lin = ', parser.consumed@ == ' + (' + '.join('%s.nf()' % n for n in live) if live else '0') if t not in NO_LINEAR else ''
+        lin += ''.join(', %s == %s.nf()' % (g, n) for g, n in shadow_before.get(k, []))
+        w('  invariant parser.wf(), parser.input == block4, parser.message_type@ == "%s"@' % t + lin + (', parser.position >= p_before_%d' % k if parents else '') + ''.join(', ' + x for x in INVARIANTS.get(t, {}).get(k, [])))
         w('  decreases block4.spec_bytes().len() - parser.position')
+        if t not in NO_LINEAR:
+            w('  bodystart broadcast use {b_seq_nf_push, b_seq_nf_empty};')
         if parents:
             w('  before let ghost p_before_%d: usize = parser.position;' % k)
+        for g, n in shadow_before.get(k, []):
+            w('  before let ghost %s: nat = %s.nf();' % (g, n))
     w('body replace "crate::parser::MessageParser::new" => "MessageParser::new"')
     w('body replace "crate::errors::ParseError" => "ParseError"')
     w('hint after "MessageParser::new(block4"')
     w('  proof { assert(parser.message_type@ == "%s"@); }   // C09: the error context names this type' % t)
+    for h1, h2 in push_hints:
+        w(h1)
+        w(h2)
+    w('hint start')
+    w('  broadcast use {b_seq_nf_push, b_seq_nf_empty};')
     w('okassert')
     w('  assert(complete(&parser));   // C01: nothing after the last field of the type is left unparsed')
+    if t not in NO_LINEAR:
+        w('  assert(parser.consumed@ == $OK.nf());   // C01: every field occurrence taken from the text is stored in the result')
     w('//@end')
     w('')
     w('} // verus!')
@@ -93,7 +256,15 @@ def main():
         if only and t not in only:
             continue
         out = os.path.join(VERIF, 'units', 'msgparse_mt%s.vu' % t)
-        open(out, 'w').write(gen(t))
+        txt = gen(t)
+        try:
+            if open(out).read() == txt:
+                continue
+        except OSError:
+            pass
+        tmp = out + '.tmp%d' % os.getpid()
+        open(tmp, 'w').write(txt)
+        os.replace(tmp, out)
     print('generated', len(types) if not only else only)
 
 
